@@ -15,7 +15,8 @@
 //   ops:  P <prog>            (M) host ExecuteThread of a fresh script generated from <prog>
 //                             prog := instr* ; instr := p<m> | w<ms> | i<x>=<int> | s<x>=<hex> | f<x>=<bits>
 //                                     | n<x> | a<x>.<k>=<int|nil> | A<x>.<k>=<y> | g<y>=<x>.<k> | c<x>=<y>
-//                                     | C<x>=<l<int>|v<y>>,.. | v<x> | e<x>.<k> | t[:<a>,<a>..]( instr* )
+//                                     | C<x>=<l<int>|v<y>>,.. | v<x> | e<x>.<k> | z<x> (.size) | t[:<a>,<a>..]( instr* )
+//                                     <k> = <int> | $<hex of a string key>
 //         D <name> <text>     (F) register the script <name>; `\n` in <text> is a new line
 //         S <name> [label]    (F) host ExecuteThread(script, label)
 //         E <targetname>*     (F) entities (by targetname) that the host archives with the scripts
@@ -205,6 +206,14 @@ struct Gen {
     int nlabels = 0;
 };
 
+// <int> or $<hex of a string key>
+static std::string keyText(std::string key)
+{
+    if (!key.empty() && key[0] == '$') return "\"" + unhex(key.substr(1)) + "\"";
+    if (!key.empty() && key[0] == '-') return "( " + key + ")";
+    return key;
+}
+
 // parse instr* up to ")" or the end; returns the statements of this block
 static std::vector<std::string> parseBlock(std::istringstream& is, Gen& g)
 {
@@ -224,18 +233,19 @@ static std::vector<std::string> parseBlock(std::istringstream& is, Gen& g)
                              st.push_back("local.x" + r.substr(0, q) + " = " + buf); }
         else if (c == 'n') st.push_back("local.x" + r + " = NIL");
         else if (c == 'a') { size_t d = r.find('.'), q = r.find('='); std::string val = r.substr(q + 1); if (val[0] == '-') val = "( " + val + ")"; if (val == "nil") val = "NIL";
-                             std::string key = r.substr(d + 1, q - d - 1); if (key[0] == '-') key = "( " + key + ")";
+                             std::string key = keyText(r.substr(d + 1, q - d - 1));
                              st.push_back("local.x" + r.substr(0, d) + "[" + key + "] = " + val); }
         else if (c == 'c') { size_t q = r.find('='); st.push_back("local.x" + r.substr(0, q) + " = local.x" + r.substr(q + 1)); }
-        else if (c == 'A') { size_t d = r.find('.'), q = r.find('='); std::string key = r.substr(d + 1, q - d - 1); if (key[0] == '-') key = "( " + key + ")";
+        else if (c == 'A') { size_t d = r.find('.'), q = r.find('='); std::string key = keyText(r.substr(d + 1, q - d - 1));
                              st.push_back("local.x" + r.substr(0, d) + "[" + key + "] = local.x" + r.substr(q + 1)); }
-        else if (c == 'g') { size_t q = r.find('='), d = r.find('.'); std::string key = r.substr(d + 1); if (key[0] == '-') key = "( " + key + ")";
+        else if (c == 'g') { size_t q = r.find('='), d = r.find('.'); std::string key = keyText(r.substr(d + 1));
                              st.push_back("local.x" + r.substr(0, q) + " = local.x" + r.substr(q + 1, d - q - 1) + "[" + key + "]"); }
         else if (c == 'C') { size_t q = r.find('='); std::string items = r.substr(q + 1), expr, it; std::istringstream is2(items);
                              while (std::getline(is2, it, ',')) { if (!expr.empty()) expr += "::"; if (it[0] == 'v') expr += "local.x" + it.substr(1); else { std::string val = it.substr(1); if (val[0] == '-') val = "( " + val + ")"; expr += val; } }
                              st.push_back("local.x" + r.substr(0, q) + " = " + expr); }
         else if (c == 'v') st.push_back("println local.x" + r);
-        else if (c == 'e') { size_t d = r.find('.'); std::string key = r.substr(d + 1); if (key[0] == '-') key = "( " + key + ")"; st.push_back("println local.x" + r.substr(0, d) + "[" + key + "]"); }
+        else if (c == 'e') { size_t d = r.find('.'); std::string key = keyText(r.substr(d + 1)); st.push_back("println local.x" + r.substr(0, d) + "[" + key + "]"); }
+        else if (c == 'z') st.push_back("println local.x" + r + ".size");
         else if (c == 't') {
             int lab = ++g.nlabels;
             // t( = no arguments; t:4,5( = thread lN local.x4 local.x5, the label binds local.x101 local.x102
@@ -305,14 +315,19 @@ struct Run {
         version_info_t i; i.header = "C09T"; i.version = 1; i.archiveName = "C09 harness archive"; return i;
     }
 
+    // every live entity bearing one of the declared target names (a name may have several bearers)
     std::vector<SimpleEntity*> entities()
     {
         std::vector<SimpleEntity*> r;
         StringDictionary& dict = ep->director().GetDictionary();
         for (auto& n : entNames) {
             const_str cs = dict.Get(n.c_str());
-            Listener* l = cs ? ep->ctx->GetTargetList().GetTarget(cs) : nullptr;
-            r.push_back(dynamic_cast<SimpleEntity*>(l));
+            ConTarget* list = cs ? ep->ctx->GetTargetList().GetExistingTargetList(cs) : nullptr;
+            if (!list) continue;
+            for (size_t i = 1; i <= list->NumObjects(); ++i) {
+                SimpleEntity* se = dynamic_cast<SimpleEntity*>(list->ObjectAt(i).Pointer());
+                if (se && std::find(r.begin(), r.end(), se) == r.end()) r.push_back(se);
+            }
         }
         return r;
     }
@@ -467,7 +482,7 @@ struct Run {
         std::string s = "fin level=" + fmtVars(ep->ctx->GetLevel(), num) + " game=" + fmtVars(ep->ctx->GetGame(), num);
         {
             std::vector<SimpleEntity*> es = entities();
-            for (size_t i = 0; i < es.size(); ++i) s += " " + entNames[i] + "=" + (es[i] ? fmtVars(es[i], num) : std::string("gone"));
+            for (size_t i = 0; i < es.size(); ++i) s += " ent" + std::to_string(i) + ":" + fmtListener(es[i]) + "=" + fmtVars(es[i], num);
         }
         std::string w = warnAcc + ep->io.warn.str();
         // script diagnostics are observable behaviour too (count only: the text carries addresses)
